@@ -7,7 +7,8 @@
 From Coq Require Import List String Ascii Bool Arith Permutation Sorted.
 From Spil Require Import Base.Str Base.Dict Base.Outcome Base.PyPath Resolva.Template Resolva.Resolver Conf.Conf Conf.WF Sid.Query Sid.Sid
   Sid.TypingSpec Sid.TypingProofs Sid.SidProofs Sid.QueryProofs Search.Unfold Search.FindList Search.GlobProofs Search.FindListProofs
-  Search.UnfoldProofs Path.PathProofs.
+  Search.UnfoldProofs Path.PathProofs Path.UnambiguousDefs Path.UnambiguousProofs Path.TotalDefs Path.TotalProofs
+  Search.UnfoldSpec Search.DenoteProofs Search.Finders FS.Fs Search.TreeListDefs Search.TreeListProofs.
 From SpilGen Require Hamlet.
 Import ListNotations.
 Local Open Scope string_scope.
@@ -56,6 +57,34 @@ Proof.
   - intros items s l H. exact (find_list_incl Ld items s l H).
 Qed.
 Print Assumptions C20_all.
+
+(* the theorems that need more than well-formedness: the same statement for ALL configurations passing the decidable checks
+   on path templates and on the search configuration (each generated family member is shown to pass them at run time) *)
+Theorem C20_all_guarded : forall c Ld, load c = Some Ld -> wf_loadedb Ld = true ->
+  paths_unambiguousb Ld = true -> paths_totalb Ld = true -> unfold_conf_okb Ld = true ->
+  (* C05 round trip *)
+  (forall x cfg p, naturally_typed Ld x -> concrete Ld x -> path_values_ok x ->
+     sid_path Ld x cfg = Ok (Some p) -> sid_of_path Ld p cfg = Ok x) /\
+  (* C06 never raises, for every string *)
+  (forall p cfg pc, get_path_config Ld cfg = Ok pc -> exists x, sid_of_path Ld p cfg = Ok x) /\
+  (* C07 denotation *)
+  (forall s l, search_ok s = true -> unfold_search Ld s false false = Ok l ->
+     forall x, In x l <-> exists b y, In b (bodies Ld s) /\ typed_of Ld b y /\ narrowed Ld y x) /\
+  (* C11 tree search = the matching entities of the searched type *)
+  (forall cfg E F, dataset_ok Ld cfg E F -> forall qs, searches_ok Ld cfg qs -> pat_inj Ld cfg qs ->
+     forall l, paths_star Ld F cfg qs = Ok l ->
+     forall s, In s l <-> exists e q, In e E /\ In q qs /\ s = s_string e /\ s_type e = s_type q /\
+                                      glob_rel (s_string q) (s_string e)).
+Proof.
+  intros c Ld Hl Hw Hu Ht Hc. repeat split.
+  - intros x cfg p H1 H2 H3 H4. exact (roundtrip c Ld x cfg p Hl Hw Hu H1 H2 H3 H4).
+  - intros p cfg pc H. exact (path_never_raises c Ld p cfg pc Hl Hw Hu Ht H).
+  - exact (proj1 (unfold_noquery_spec c Ld Hl Hw Hc s l H H0 x)).
+  - exact (proj2 (unfold_noquery_spec c Ld Hl Hw Hc s l H H0 x)).
+  - exact (proj1 (tree_search_glob c Ld Hl Hw Hu cfg E F H qs H0 H1 l H2 s)).
+  - exact (proj2 (tree_search_glob c Ld Hl Hw Hu cfg E F H qs H0 H1 l H2 s)).
+Qed.
+Print Assumptions C20_all_guarded.
 
 (* the hypotheses are satisfiable: today's configuration (and, at run time, every member of the generated family) *)
 Example C20_instance : load Hamlet.the_conf = Some Hamlet.the_loaded /\ wf_loadedb Hamlet.the_loaded = true.
